@@ -18,6 +18,7 @@ import (
 	"os"
 	"path/filepath"
 	"regexp"
+	"runtime"
 	"sort"
 	"strconv"
 	"strings"
@@ -46,10 +47,23 @@ type runRec struct {
 	Lcp  int    `json:"lcp"`
 	Slen int    `json:"slen"`
 	Sw   int    `json:"sw"`
+	H    int    `json:"h"`  // position in a history of back-to-back calls (0: main loop)
+	Bc   int    `json:"bc"` // Write calls of the very first, never-failing WriteTo of this module
 
 	src   int // index of the subject
 	panic string
 	b     behaviour
+	pre   *runRec // the call made just before this one in the same goroutine
+}
+
+// softInfra reports an infrastructure problem; if violations were already found the verdict stands
+// (exit 1): a defect that derails the harness must not be turned into an infrastructure error.
+func softInfra(rep *mbt.Report, format string, a ...interface{}) {
+	if rep.Violations() > 0 {
+		rep.Note("after the violations above the harness also hit: "+format, a...)
+		rep.Finish()
+	}
+	mbt.Infra(format, a...)
 }
 
 func lcp(a []byte, s string) int {
@@ -68,7 +82,7 @@ func lcp(a []byte, s string) int {
 // runOne calls the real Module.WriteTo against an instrumented writer.
 func runOne(id, src int, s *subject, b behaviour, rng *rand.Rand) *runRec {
 	w := newWriter(b, len(s.Str), rng)
-	r := &runRec{ID: id, Mode: b.Mode, P: b.Piece, K: b.Cap, src: src, b: b, Slen: len(s.Str)}
+	r := &runRec{ID: id, Mode: b.Mode, P: b.Piece, K: b.Cap, src: src, b: b, Slen: len(s.Str), Bc: len(s.Chunks)}
 	if b.Sticky {
 		r.St = 1
 	}
@@ -191,7 +205,13 @@ func design(rep *mbt.Report, tier string) {
 	// a writer that violates the io.Writer contract
 	add("silent/still-counts", "Writer", "WriterSilent.cfg", []string{"TypeOK", "CountExact", "SilentStillCounts"}, nil, nil)
 	add("silent/prefix", "Writer", "WriterSilent.cfg", []string{"PrefixDeliveredAnyWriter"}, nil, []string{"PrefixDeliveredAnyWriter"})
-	for _, inv := range []string{"NeverFails", "AlwaysFails", "NeverSkips"} {
+	// a pooled fmtWriter whose error latch survives the call: only a history of two calls shows it
+	for _, inv := range []string{"CallStartsFresh", "HealthyAfterFailure", "FirstError", "NoFailEqualsString"} {
+		add("pooled/"+inv, "Writer", "WriterPooled.cfg", []string{inv}, nil, []string{inv})
+	}
+	add("pooled/single-call", "Writer", "WriterPooled.cfg", nil, map[string]string{"MaxCalls": "1"}, nil)
+	add("pooled/CountExact", "Writer", "WriterPooled.cfg", []string{"TypeOK", "CountExact", "NoWriteAfterFailure", "PrefixDelivered"}, nil, nil)
+	for _, inv := range []string{"NeverFails", "AlwaysFails", "NeverSkips", "NoHistory"} {
 		add("vacuity/"+inv, "Writer", "WriterVacuity.cfg", []string{inv}, nil, []string{inv})
 	}
 	sem := make(chan struct{}, 5)
@@ -224,12 +244,22 @@ func design(rep *mbt.Report, tier string) {
 	rep.Extra["design_level_tlc"] = outcome
 }
 
-var reVec = regexp.MustCompile(`<<\s*"VEC",\s*(\d+),\s*"(\w+)",\s*(TRUE|FALSE),\s*(-?\d+),\s*(\d+),\s*(\d+),\s*(\d+),\s*(\d+),\s*(\d+),\s*(\d+)\s*>>`)
+var reVec = regexp.MustCompile(`<<\s*"VEC",\s*(\d+),\s*"(\w+)",\s*(TRUE|FALSE),\s*(-?\d+),\s*(\d+),\s*(\d+),\s*(\d+),\s*(\d+),\s*(\d+),\s*(\d+),\s*(\d+),\s*(TRUE|FALSE)\s*>>`)
 var reBad = regexp.MustCompile(`<<\s*"BADRUN",\s*"(\w+)",\s*\{([^}]*)\},\s*(\d+)\s*>>`)
 
 type vector struct {
 	b                         behaviour
 	n, errAt, calls, dlen, sw int
+	call                      int  // position of the call in the history
+	prevFailed                bool // an earlier call of the history failed
+}
+
+// vecKey: first calls by behaviour, later calls also by what preceded them.
+func vecKey(src int, b behaviour, call int, prevFailed bool) string {
+	if call <= 1 {
+		return b.key(src)
+	}
+	return fmt.Sprintf("%s|call%d|%v", b.key(src), call, prevFailed)
 }
 
 // generate runs Writer.tla on the recorded chunk sizes of the small subjects (direction G).
@@ -248,21 +278,23 @@ func generate(rep *mbt.Report, subs []*subject, small []int, pieces []int) map[s
 			"chunks.ndjson":     mbt.NDJSONBytes(rows)}})
 	defer t.Cleanup()
 	if len(t.Violated) > 0 {
-		mbt.Infra("Writer.tla (as written) violates %v on the chunk sequences of real modules: specification error\n%s", t.Violated, mbt.Truncate(t.Output, 3000))
+		softInfra(rep, "Writer.tla (as written) violates %v on the chunk sequences of real modules: specification error\n%s", t.Violated, mbt.Truncate(t.Output, 3000))
 	}
 	rep.AddTLC(t)
 	vecs := map[string]vector{}
 	for _, m := range reVec.FindAllStringSubmatch(t.Output, -1) {
 		iv := func(i int) int { v, _ := strconv.Atoi(m[i]); return v }
-		v := vector{b: behaviour{Mode: m[2], Sticky: m[3] == "TRUE", Piece: iv(4), Cap: iv(5)}, n: iv(6), errAt: iv(7), calls: iv(8), dlen: iv(9), sw: iv(10)}
-		vecs[v.b.key(small[iv(1)-1])] = v
+		v := vector{b: behaviour{Mode: m[2], Sticky: m[3] == "TRUE", Piece: iv(4), Cap: iv(5)}, n: iv(6), errAt: iv(7), calls: iv(8), dlen: iv(9), sw: iv(10), call: iv(11), prevFailed: m[12] == "TRUE"}
+		vecs[vecKey(small[iv(1)-1], v.b, v.call, v.prevFailed)] = v
 	}
 	want := 0
 	for _, si := range small {
-		want += (len(subs[si].Str)+1)*4*len(pieces) + len(pieces)
+		// first calls: every capacity x {whole, prefix} x {sticky, recovering} x pieces, plus never x pieces;
+		// second calls (healthy writer): pieces x {after a failed call, after a successful call}
+		want += (len(subs[si].Str)+1)*4*len(pieces) + len(pieces) + 2*len(pieces)
 	}
 	if len(vecs) != want {
-		mbt.Infra("generator: %d vectors parsed, %d expected", len(vecs), want)
+		softInfra(rep, "generator: %d vectors parsed, %d expected", len(vecs), want)
 	}
 	return vecs
 }
@@ -296,7 +328,7 @@ func judge(rep *mbt.Report, subs []*subject, recs []*runRec) {
 		if t.Distinct != int64(len(batch)+nb+1) {
 			out := t.Output
 			t.Cleanup()
-			mbt.Infra("WriterTrace judged %d states, expected %d rows + %d blocks + 1\n%s", t.Distinct, len(batch), nb, mbt.Truncate(out, 3000))
+			softInfra(rep, "WriterTrace judged %d states, expected %d rows + %d blocks + 1\n%s", t.Distinct, len(batch), nb, mbt.Truncate(out, 3000))
 		}
 		for _, v := range t.Violated {
 			if v != "Judged" {
@@ -325,19 +357,19 @@ func judge(rep *mbt.Report, subs []*subject, recs []*runRec) {
 			default:
 				for _, law := range strings.Split(m[2], ",") {
 					law = strings.Trim(strings.TrimSpace(law), `"`)
-					rep.Fail(mbt.Failure{Signature: "C19|WriteTo|" + law + "|" + r.b.class(),
-						What: fmt.Sprintf("%s: writer %+v: %s", subs[r.src].Name, r.b, describe(r)),
-						Case: caseOf(subs[r.src], r)})
+					rep.Fail(mbt.Failure{Signature: "C19|WriteTo|" + law + "|" + r.class(),
+						What: fmt.Sprintf("%s: writer %+v%s: %s", subs[r.src].Name, r.b, r.context(subs), describe(r)),
+						Case: caseOf(subs, r)})
 				}
 			}
 		}
 		t.Cleanup()
 	}
 	if equipment > 0 {
-		mbt.Infra("%d recorded runs in which the instrumented writer did not behave as the writer model of Writer.tla says (test equipment or model error)", equipment)
+		softInfra(rep, "%d recorded runs in which the instrumented writer did not behave as the writer model of Writer.tla says (test equipment or model error)", equipment)
 	}
 	if model > 0 {
-		mbt.Infra("%d recorded runs satisfy the laws but differ from the prediction of the fmtWriter model as written: the model does not describe the code", model)
+		softInfra(rep, "%d recorded runs satisfy the laws but differ from the prediction of the fmtWriter model as written: the model does not describe the code", model)
 	}
 }
 
@@ -364,28 +396,75 @@ func errName(e int) string {
 	return fmt.Sprintf("error of call %d", e)
 }
 
-func caseOf(s *subject, r *runRec) map[string]interface{} {
-	return map[string]interface{}{"subject": s.Name, "mode": r.b.Mode, "sticky": r.b.Sticky, "piece": r.b.Piece, "cap": r.b.Cap,
-		"observed": map[string]interface{}{"n": r.N, "e": r.E, "calls": len(r.Off), "dlen": r.Dlen, "lcp": r.Lcp, "slen": r.Slen}}
+// class is the writer class of the run, marked when the call followed a failed call of a history.
+func (r *runRec) class() string {
+	if r.H > 1 {
+		return r.b.class() + "@after-failed-call"
+	}
+	return r.b.class()
 }
 
-// prepare prints every subject once and records its chunk sizes.
-func prepare(rep *mbt.Report, subs []*subject) []*subject {
+func (r *runRec) context(subs []*subject) string {
+	if r.pre == nil {
+		return ""
+	}
+	return fmt.Sprintf(" (the call before it in the same goroutine: %s, writer %+v, returned err=%s)", subs[r.pre.src].Name, r.pre.b, errName(r.pre.E))
+}
+
+// caseOf is the replayable description of a run: the call itself and the call made just before it.
+func caseOf(subs []*subject, r *runRec) map[string]interface{} {
+	c := map[string]interface{}{"subject": subs[r.src].Name, "mode": r.b.Mode, "sticky": r.b.Sticky, "piece": r.b.Piece, "cap": r.b.Cap,
+		"observed": map[string]interface{}{"n": r.N, "e": r.E, "calls": len(r.Off), "dlen": r.Dlen, "lcp": r.Lcp, "slen": r.Slen}}
+	if r.pre != nil {
+		c["pre"] = map[string]interface{}{"subject": subs[r.pre.src].Name, "mode": r.pre.b.Mode, "sticky": r.pre.b.Sticky, "piece": r.pre.b.Piece, "cap": r.pre.b.Cap}
+	}
+	return c
+}
+
+// prepare makes the very first calls of the process on every module, before any writer has failed:
+// String(), then WriteTo to a never-failing writer that takes every Write in one piece.  The Write
+// sizes of that call are the chunk sequence of the module.  A first call that does not deliver
+// String() with n = len and a nil error is a violation by itself and makes the module unusable as
+// a reference.
+func prepare(rep *mbt.Report, subs []*subject, rng *rand.Rand) []*subject {
 	var ok []*subject
-	for _, s := range subs {
+	for i, s := range subs {
 		if msg, p := mbt.Guard(func() { s.Str = s.M.String() }); p {
 			rep.Note("%s: String() panics (%s): not usable for C19", s.Name, mbt.Truncate(msg, 120))
 			continue
 		}
+		r := runOne(0, i, s, behaviour{Mode: "never"}, rng)
+		if diff := healthyDiff(r, s); diff != "" || r.panic != "" {
+			rep.Count("first-call|"+s.Name, true)
+			rep.Fail(mbt.Failure{Signature: "C19|WriteTo|never-failing-writer|first call: " + diff, What: fmt.Sprintf("%s: first WriteTo of the process to a never-failing writer: %s %s", s.Name, describe(r), r.panic),
+				Case: map[string]interface{}{"subject": s.Name, "mode": "never", "sticky": false, "piece": 0, "cap": 0}})
+			continue
+		}
+		s.Chunks = r.Off
 		ok = append(ok, s)
 	}
 	return ok
 }
 
+// healthyDiff names what a call to a never-failing writer got wrong ("" if nothing).
+func healthyDiff(r *runRec, s *subject) string {
+	var d []string
+	if r.N != int64(len(s.Str)) {
+		d = append(d, "n")
+	}
+	if r.E != 0 {
+		d = append(d, "err")
+	}
+	if r.Dlen != len(s.Str) || r.Lcp != r.Dlen {
+		d = append(d, "delivered")
+	}
+	return strings.Join(d, "+")
+}
+
 // Run is the C19 check.
 func Run(tier, replay string) {
 	rep := mbt.NewReport("C19", tier, "model_checking")
-	rep.Rule = "distinct (module, writer behaviour) pairs on which the real Module.WriteTo was run against an instrumented writer and judged by TLC (WriterTrace.tla); behaviours = failure offset k x {whole-chunk, short-write} x {sticky, recovering} x re-chunking piece size, never-failing writers with fixed and random chunking, contract-violating silent short writes"
+	rep.Rule = "distinct (module, writer behaviour, position in a history of calls) triples on which the real Module.WriteTo was run against an instrumented writer and judged by TLC (WriterTrace.tla); behaviours = failure offset k x {whole-chunk, short-write} x {sticky, recovering} x re-chunking piece size, never-failing writers with fixed and random chunking, contract-violating silent short writes; histories = failing call, then healthy call on the same and on another module, then String()"
 	seed := mbt.Seed()
 	var cases []map[string]interface{}
 	if replay != "" {
@@ -426,53 +505,107 @@ func Run(tier, replay string) {
 		lap("design-level TLC")
 	}
 
+	// All calls of the real code are made back to back by this goroutine, pinned to its thread, with one
+	// P: state that an implementation keeps between calls (a pool, a package variable) is then met again
+	// by the next call instead of staying behind on another P.
+	runtime.LockOSThread()
+	procs := runtime.GOMAXPROCS(1)
+	restore := func() {
+		runtime.GOMAXPROCS(procs)
+		runtime.UnlockOSThread()
+	}
+
 	subs, rejected := corpus(tier, rng)
 	for _, r := range rejected {
 		rep.Note("not parsed, skipped: %s", mbt.Truncate(r, 160))
 	}
-	subs = prepare(rep, subs)
+	subs = prepare(rep, subs, rng)
 	if len(subs) < 5 {
-		mbt.Infra("only %d usable modules", len(subs))
+		restore()
+		softInfra(rep, "only %d usable modules", len(subs))
 	}
 	covered := map[string]bool{}
 	var recs []*runRec
+	var last *runRec
 	id := 0
-	newRun := func(si int, b behaviour) *runRec {
+	newRun := func(si int, b behaviour, h int) *runRec {
 		id++
 		r := runOne(id, si, subs[si], b, rng)
+		r.H, r.pre = h, last
+		last = r
 		recs = append(recs, r)
-		key := subs[si].Name + "|" + b.key(si)
+		key := fmt.Sprintf("%s|%s|h%d", subs[si].Name, b.key(si), h)
+		if h > 0 && r.pre != nil {
+			key += "|after " + subs[r.pre.src].Name + "|" + r.pre.b.key(r.pre.src)
+		}
 		rep.Count(key, true)
 		if r.panic != "" {
-			rep.Fail(mbt.Failure{Signature: "C19|WriteTo|panic|" + b.class(), What: fmt.Sprintf("%s: writer %+v: WriteTo panics: %s", subs[si].Name, b, mbt.Truncate(r.panic, 200)), Case: caseOf(subs[si], r)})
+			rep.Fail(mbt.Failure{Signature: "C19|WriteTo|panic|" + r.class(), What: fmt.Sprintf("%s: writer %+v%s: WriteTo panics: %s", subs[si].Name, b, r.context(subs), mbt.Truncate(r.panic, 200)), Case: caseOf(subs, r)})
 		}
 		return r
+	}
+	// String() must keep working (it panics on an error) and keep its value, whatever was called before.
+	stringChecks := 0
+	checkString := func(si int) {
+		stringChecks++
+		s := subs[si]
+		var got string
+		ctx := ""
+		var c map[string]interface{}
+		if last != nil {
+			ctx = fmt.Sprintf(" after WriteTo of %s to writer %+v returned err=%s", subs[last.src].Name, last.b, errName(last.E))
+			c = caseOf(subs, last)
+			c["then_string_of"] = s.Name
+		}
+		rep.Count(fmt.Sprintf("String|%s|%s", s.Name, ctx), true)
+		cls := "first"
+		if last != nil {
+			cls = last.b.class()
+		}
+		if msg, p := mbt.Guard(func() { got = s.M.String() }); p {
+			rep.Fail(mbt.Failure{Signature: "C19|String|panics after a failed WriteTo|" + cls, What: fmt.Sprintf("%s: String()%s panics: %s", s.Name, ctx, mbt.Truncate(msg, 200)), Case: c})
+			return
+		}
+		if got != s.Str {
+			rep.Fail(mbt.Failure{Signature: "C19|String|differs after a failed WriteTo|" + cls, What: fmt.Sprintf("%s: String()%s has %d bytes, %d of them a prefix of the first String() (%d bytes)", s.Name, ctx, len(got), lcp([]byte(got), s.Str), len(s.Str)), Case: c})
+		}
+	}
+	byName := func(name string) int {
+		for si, s := range subs {
+			if s.Name == name {
+				return si
+			}
+		}
+		restore()
+		mbt.Infra("replay: no module named %q in the corpus", name)
+		return -1
+	}
+	behaviourOf := func(c map[string]interface{}) behaviour {
+		num := func(k string) int { f, _ := c[k].(float64); return int(f) }
+		mode, _ := c["mode"].(string)
+		st, _ := c["sticky"].(bool)
+		return behaviour{Mode: mode, Sticky: st, Piece: num("piece"), Cap: num("cap")}
 	}
 
 	if replay != "" {
 		for _, c := range cases {
 			name, _ := c["subject"].(string)
-			num := func(k string) int { f, _ := c[k].(float64); return int(f) }
-			mode, _ := c["mode"].(string)
-			st, _ := c["sticky"].(bool)
-			found := false
-			for si, s := range subs {
-				if s.Name == name {
-					found = true
-					base := runOne(0, si, s, behaviour{Mode: "never"}, rng)
-					s.Chunks = base.Off
-					newRun(si, behaviour{Mode: mode, Sticky: st, Piece: num("piece"), Cap: num("cap")})
-				}
+			h := 0
+			if pre, ok := c["pre"].(map[string]interface{}); ok {
+				pn, _ := pre["subject"].(string)
+				newRun(byName(pn), behaviourOf(pre), 1)
+				h = 2
 			}
-			if !found {
-				mbt.Infra("replay: no module named %q in the corpus", name)
+			newRun(byName(name), behaviourOf(c), h)
+			if sn, ok := c["then_string_of"].(string); ok {
+				checkString(byName(sn))
 			}
 		}
+		restore()
 		judge(rep, subs, recs)
 		rep.Finish()
 	}
 
-	// baseline: a never-failing writer that takes every Write in one piece; its log is the chunk sequence
 	gPieces, tPieces := []int{0, 2, 7}, []int{0, 7}
 	gLimit, allLimit, stride := 700, 1600, 37
 	if tier == "thorough" {
@@ -480,11 +613,13 @@ func Run(tier, replay string) {
 		gLimit, allLimit, stride = 3000, 12000, 6
 	}
 	var small []int
+	isSmallSub := map[int]bool{}
 	allOffsets := []string{}
 	strided := []string{}
 	for si, s := range subs {
-		base := newRun(si, behaviour{Mode: "never"})
-		s.Chunks = base.Off
+		// a never-failing writer that takes every Write in one piece; from the second module on this call
+		// follows the failing calls on the previous module
+		newRun(si, behaviour{Mode: "never"}, 0)
 		for _, sec := range sections(s.M) {
 			covered[sec] = true
 		}
@@ -492,6 +627,7 @@ func Run(tier, replay string) {
 		isSmall := L <= gLimit
 		if isSmall {
 			small = append(small, si)
+			isSmallSub[si] = true
 		}
 		pieces := tPieces
 		if isSmall {
@@ -499,11 +635,11 @@ func Run(tier, replay string) {
 		}
 		// never-failing writers, however they chunk
 		for _, p := range []int{1, 2, 7, 64, -1, -1} {
-			newRun(si, behaviour{Mode: "never", Piece: p})
+			newRun(si, behaviour{Mode: "never", Piece: p}, 0)
 		}
 		// contract-violating short writes without error
 		for _, k := range []int{0, 1, 2, 7, 64} {
-			newRun(si, behaviour{Mode: "silent", Cap: k})
+			newRun(si, behaviour{Mode: "silent", Cap: k}, 0)
 		}
 		all := isSmall || L <= allLimit
 		if all {
@@ -522,7 +658,7 @@ func Run(tier, replay string) {
 			for _, mode := range []string{"whole", "prefix"} {
 				for _, st := range []bool{false, true} {
 					for _, p := range pieces {
-						newRun(si, behaviour{Mode: mode, Sticky: st, Piece: p, Cap: k})
+						newRun(si, behaviour{Mode: mode, Sticky: st, Piece: p, Cap: k}, 0)
 					}
 				}
 			}
@@ -534,37 +670,96 @@ func Run(tier, replay string) {
 			missing = append(missing, sec)
 		}
 	}
-	if len(missing) > 0 {
-		mbt.Infra("corpus does not exercise these sections of Module.WriteTo: %v", missing)
-	}
 	rep.Extra["sections_of_WriteTo_exercised"] = allSections
 	rep.Extra["modules_every_offset"] = allOffsets
 	rep.Extra["modules_strided_offsets"] = strided
-
 	lap("runs of WriteTo")
+
+	// Histories: WriteTo(failing at k) ; WriteTo(healthy) on the same module ; String() ;
+	// WriteTo(failing at k) ; WriteTo(healthy) on ANOTHER module ; String() of that module.
+	// Required: the later calls behave exactly like first calls.
+	histories := 0
+	var hist2 []*runRec // the healthy second calls
+	for si, s := range subs {
+		L := len(s.Str)
+		if L == 0 {
+			continue
+		}
+		ks := map[int]bool{0: true, 1: true, L / 2: true, L - 1: true}
+		pos := 0
+		for i, c := range s.Chunks { // fail inside the first, a middle and the last Write and at their ends
+			pos += c
+			if i == 0 || i == len(s.Chunks)/2 || i == len(s.Chunks)-1 {
+				ks[pos-1] = true
+				if pos < L {
+					ks[pos] = true
+				}
+			}
+		}
+		if tier == "thorough" && L <= gLimit {
+			for k := 0; k < L; k++ {
+				ks[k] = true
+			}
+		}
+		var sorted []int
+		for k := range ks {
+			if k >= 0 && k < L {
+				sorted = append(sorted, k)
+			}
+		}
+		sort.Ints(sorted)
+		other := (si + 1) % len(subs)
+		for _, k := range sorted {
+			for _, mode := range []string{"whole", "prefix"} {
+				for _, p := range []int{0, 7} {
+					fb := behaviour{Mode: mode, Sticky: k%2 == 1, Piece: p, Cap: k}
+					histories++
+					newRun(si, fb, 1)
+					hist2 = append(hist2, newRun(si, behaviour{Mode: "never"}, 2))
+					checkString(si)
+					newRun(si, fb, 1)
+					hist2 = append(hist2, newRun(other, behaviour{Mode: "never", Piece: p}, 2))
+					checkString(other)
+				}
+			}
+		}
+	}
+	restore()
+	rep.Extra["histories"] = histories
+	rep.Extra["string_calls_after_failed_WriteTo"] = stringChecks
+	lap("histories")
 	entries := 0
 	for _, r := range recs {
 		entries += len(r.Off)
 	}
 	rep.Extra["logged_write_calls"] = entries
+	rep.Extra["runs"] = len(recs)
+	rep.Extra["modules"] = len(subs)
+
+	// (T) every run judged by TLC
+	judge(rep, subs, recs)
+	lap("trace TLC")
+	if len(missing) > 0 {
+		softInfra(rep, "corpus does not exercise these sections of Module.WriteTo: %v", missing)
+	}
+
 	// (G) required outcomes generated by TLC from the specification, compared with the runs
 	vecs := generate(rep, subs, small, gPieces)
 	obs := map[string]*runRec{}
 	for _, r := range recs {
-		obs[r.b.key(r.src)] = r
+		if r.H == 0 {
+			obs[r.b.key(r.src)] = r
+		}
 	}
 	keys := make([]string, 0, len(vecs))
 	for k := range vecs {
-		keys = append(keys, k)
+		if vecs[k].call == 1 {
+			keys = append(keys, k)
+		}
 	}
 	sort.Strings(keys)
 	compared := 0
-	for _, k := range keys {
-		v := vecs[k]
-		r := obs[k]
-		if r == nil {
-			mbt.Infra("generator vector %s was not replayed", k)
-		}
+	compare := func(v vector, r *runRec, k string) {
 		compared++
 		var diff []string
 		if int64(v.n) != r.N {
@@ -580,39 +775,57 @@ func Run(tier, replay string) {
 			diff = append(diff, "delivered")
 		}
 		if len(diff) == 0 && v.sw != r.Sw {
-			mbt.Infra("vector %s: the sink saw %d writes, the writer model says %d (test equipment)", k, r.Sw, v.sw)
+			softInfra(rep, "vector %s: the sink saw %d writes, the writer model says %d (test equipment)", k, r.Sw, v.sw)
 		}
 		if len(diff) > 0 {
-			rep.Fail(mbt.Failure{Signature: "C19|WriteTo|required-outcome:" + strings.Join(diff, "+") + "|" + r.b.class(),
-				What: fmt.Sprintf("%s: writer %+v: specification requires n=%d err=%s calls=%d delivered=%d; %s", subs[r.src].Name, r.b, v.n, errName(v.errAt), v.calls, v.dlen, describe(r)),
-				Case: caseOf(subs[r.src], r)})
+			rep.Fail(mbt.Failure{Signature: "C19|WriteTo|required-outcome:" + strings.Join(diff, "+") + "|" + r.class(),
+				What: fmt.Sprintf("%s: writer %+v%s: specification requires n=%d err=%s calls=%d delivered=%d; %s", subs[r.src].Name, r.b, r.context(subs), v.n, errName(v.errAt), v.calls, v.dlen, describe(r)),
+				Case: caseOf(subs, r)})
 		}
+	}
+	for _, k := range keys {
+		r := obs[k]
+		if r == nil {
+			softInfra(rep, "generator vector %s was not replayed", k)
+		}
+		compare(vecs[k], r, k)
+	}
+	// the healthy second calls of the histories against the vectors TLC generated for second calls
+	second := 0
+	for _, r := range hist2 {
+		if !isSmallSub[r.src] {
+			continue
+		}
+		k := vecKey(r.src, r.b, 2, true)
+		v, ok := vecs[k]
+		if !ok {
+			continue // piece size outside the generator's set
+		}
+		second++
+		compare(v, r, k)
 	}
 	rep.TracesValidated += compared
 	rep.Extra["generated_vectors_replayed"] = compared
+	rep.Extra["generated_second_call_vectors_replayed"] = second
 	if len(keys) > 0 {
 		k := keys[len(keys)/2]
 		v, r := vecs[k], obs[k]
 		rep.Sample(map[string]interface{}{"kind": "generated-vector", "module": subs[r.src].Name, "writer": fmt.Sprintf("%+v", v.b),
 			"required": map[string]int{"n": v.n, "errAt": v.errAt, "calls": v.calls, "delivered": v.dlen}, "observed": describe(r)})
 	}
-
 	lap("generator TLC + comparison")
-	// (T) every run judged by TLC
-	judge(rep, subs, recs)
-	lap("trace TLC")
+
 	for _, i := range []int{len(recs) / 3, 2 * len(recs) / 3, len(recs) - 1} {
 		r := recs[i]
-		rep.Sample(map[string]interface{}{"kind": "recorded-run", "module": subs[r.src].Name, "writer": fmt.Sprintf("%+v", r.b), "observed": describe(r)})
+		rep.Sample(map[string]interface{}{"kind": "recorded-run", "module": subs[r.src].Name, "writer": fmt.Sprintf("%+v", r.b), "position_in_history": r.H, "observed": describe(r)})
 	}
-	rep.Extra["runs"] = len(recs)
-	rep.Extra["modules"] = len(subs)
 	rep.Exhaustive = false
 	rep.Assumptions = []string{
 		"fmt.Fprint/Fprintf/Fprintln perform exactly one Write on the underlying writer per call (Go standard library)",
 		"the instrumented writer implements the writer models of Writer.tla (checked per run by the Equipment conjunct of WriterTrace.tla)",
 		"writers that cut a Write short without returning an error are outside the property; for them only the count and the nil error are checked",
 		"TLC evaluates the predicates of Writer.tla on the recorded rows correctly; the byte comparison with String() is done by the harness (longest common prefix) and handed to TLC as lengths",
+		"state kept between calls is met by the next call because all calls are made back to back by one goroutine locked to its thread with GOMAXPROCS(1); state kept per goroutine or cleared by a garbage collection between two calls is not seen",
 	}
 	rep.Finish()
 }
